@@ -228,14 +228,14 @@ func init() {
 			"template in two files (rejected, or the error names one file with that file's failing line). distinct = distinct (file text, fault, line); non-trivial = all",
 		N: func(tier string) int {
 			if tier == "thorough" {
-				return 2000 + 20000
+				return 20000 + 200000
 			}
-			return 100 + 2000
+			return 400 + 10000
 		},
 		Run: func(ctx *fw.Ctx, i int) fw.Result {
-			nParse := 100
+			nParse := 400
 			if ctx.Tier == "thorough" {
-				nParse = 2000
+				nParse = 20000
 			}
 			if i < nParse {
 				g := &gen.G{R: ctx.Rng}
@@ -244,7 +244,7 @@ func init() {
 				prog := g.Bundle(1, 2+ctx.Rng.Intn(3))
 				f := prog.B.Files[0]
 				lines := map[ref.Node]int{}
-				src := ref.FileSrc(f, ref.Layout{Multiline: true}, lines)
+				src := ref.FileSrc(f, ref.Layout{Multiline: true, CRLF: i%3 == 1}, lines)
 				if _, err := parse.SoyFile(f.Name, src); err != nil {
 					return fw.Result{Verdict: fw.Skip} // C02's subject
 				}
